@@ -238,6 +238,7 @@ func ruleC08(c *Ctx) {
 	c.useFn(ot)
 	tb := newDeepTB(gcf)
 	poolHygiene(c, "TERM-COUNT", family(ot))
+	frameAlignment(c, "TERM-COUNT", family(ot))
 	wi := windowModel(gcf, tb, "param[0]")
 	c.judge(wi.State, "TERM-COUNT", "getCodonFrequency:window of 3 over every letter", gcf.Pos(),
 		"every letter of the argument enters the window unconditionally; a region runs exactly at Len()==3 and resets the window; the loop leaves only at end of input", wi.Why)
